@@ -8,10 +8,11 @@ use pkgsrc::plist::Plist;
 use serde_json::{json, Value};
 use std::os::unix::ffi::OsStrExt;
 
-const S1: [&[u8]; 26] = [
+const S1: [&[u8]; 30] = [
     b"f1", b"f2", b"+M", b"@ignore", b"@cwd /a", b"@cwd /b/", b"@cwd \xe9", b"@cwd /c\xe9/", b"@cwd rel", b"@exec e %D", b"@unexec u", b"@mode",
     b"@mode 0644", b"@owner o", b"@group g", b"@pkgdir d1", b"@dirrm d2", b"@comment c", b"@name n-1", b"@display msg",
     b"@pkgdep p>=1", b"@blddep b-[0-9]*", b"@pkgcfl x-*", b"@option preserve", b"@name n-2", b"@display other",
+    b"@owner", b"@group", b"@comment", b"/abs/f",
 ];
 const S2: [&[u8]; 7] = [b"f1", b"f2", b"@ignore", b"@cwd /a", b"@cwd /b/", b"@exec e", b"@comment c"];
 
@@ -126,7 +127,7 @@ fn main() {
         run.finish_replay(replay(doc), replay(doc));
     }
     run.rule(
-        "packing lists generated from entry-kind alphabets and parsed by the real parser: S1 = 26 \
+        "packing lists generated from entry-kind alphabets and parsed by the real parser: S1 = 30 \
          kinds (files, @ignore, three @cwd shapes incl. trailing '/' and non-UTF-8, every other \
          command kind, two @name and two @display), all sequences of <= N1; S2 = 7 kinds (f1 f2 \
          @ignore @cwd /a @cwd /b/ @exec @comment), all sequences of <= N2 (long ignore/file/cwd \
@@ -137,7 +138,7 @@ fn main() {
     run.assume("reference fold: mc/core/src/model/plist.rs views(); install/uninstall lists compared by value with the expected sub-sequence of the entry sequence");
 
     let n1 = run.pick(4, 5);
-    run.bound(format!("S1: all {} sequences of <= {} entries over 26 kinds", seqs::count(S1.len(), n1), n1));
+    run.bound(format!("S1: all {} sequences of <= {} entries over 30 kinds", seqs::count(S1.len(), n1), n1));
     seqs::par_seqs(&run, "C15 S1", S1.len(), n1, 2, |_| false, |s, t| {
         let mut text = vec![];
         for i in s {
@@ -194,7 +195,7 @@ fn main() {
     // byte sweep: every byte value at the end of a @cwd directory and inside file names
     {
         let mut t = Tally::new();
-        for b in 1u16..=255 {
+        for b in 0u16..=255 {
             let b = b as u8;
             if [b'\n', 0x09, 0x0b, 0x0c, 0x0d, 0x20, 0x85, 0xa0].contains(&b) {
                 continue;
